@@ -2,6 +2,7 @@ package checks
 
 import (
 	"os"
+	"runtime"
 	"path/filepath"
 	"sort"
 	"strconv"
@@ -14,6 +15,8 @@ import (
 
 // C08 — verify reports exactly the differences. Oracle: model missing/extra sets against the
 // real directory state; the error text is parsed by its two documented headings.
+
+var c08Quiet = mon.NewLeakMonitor()
 
 func init() {
 	Register(&Check{Prop: "C08", Run: runC08, Replay: func(c *Ctx, cs *Case) { evalC08(c, cs) }})
@@ -433,6 +436,81 @@ func c08State1(c *Ctx, cs *Case, f, merged model.Forest, doc, fkey string, st *c
 				}
 			}
 		}
+	}
+	// massive mode (several roots): the verdict must be the model's, and a report must be exactly
+	// the lists of ONE differing root (which root is reported is schedule dependent)
+	if len(merged) >= 2 {
+		for _, strict := range []bool{false, true} {
+			cs.Entry = "VerifyFromMarkdown[strict=" + strconv.FormatBool(strict) + ",massive]"
+			cs.Opt = map[string]string{"state": strconv.Itoa(si), "kind": kind}
+			cs.Tags = []string{"massive"}
+			cs.SetDoc(doc)
+			c.Rejournal(cs)
+			base := runtime.NumGoroutine()
+			o := verifyCall(verifyRoutes[0], doc, nil, fsOpts(j.Target, nil, false, false, true, strict))
+			c08Quiet.Quiesce(base)
+			c.Eval(gen.HashString(fkey+"\x00massive"+cs.Entry+kind+strconv.Itoa(si)), true)
+			c.SetAdd("entries", cs.Entry)
+			// model: per root missing/extra
+			type me struct{ miss, extra []string }
+			var differing []me
+			for _, root := range merged {
+				actual, _, _ := actualUnder(j.Target, root.Name)
+				mset := map[string]bool{}
+				var d me
+				for _, p := range model.Paths(model.Forest{root}) {
+					mset[p] = true
+					if !actual[p] {
+						d.miss = append(d.miss, p)
+					}
+				}
+				if strict {
+					for p := range actual {
+						if !mset[p] {
+							d.extra = append(d.extra, p)
+						}
+					}
+				}
+				sort.Strings(d.miss)
+				sort.Strings(d.extra)
+				if len(d.miss) > 0 || len(d.extra) > 0 {
+					differing = append(differing, d)
+				}
+			}
+			det := map[string]any{"forest": fkey, "doc": doc, "strict": strict, "err": errStr(o.Err), "differing_roots": len(differing)}
+			switch {
+			case o.Panic != nil:
+				c.Violation(cs, "panic", PanicSig(o.Panic, o.Stack), det)
+			case len(differing) == 0 && o.Err != nil:
+				c.Violation(cs, "verdict.false-alarm", "massive", det)
+			case len(differing) > 0 && o.Err == nil:
+				c.Violation(cs, "verdict.missed-difference", "massive", det)
+			case len(differing) > 0:
+				extra, missing, ok := parseVerifyErr(o.Err.Error())
+				match := false
+				if ok {
+					strip := func(xs []string) []string {
+						out := []string{}
+						for _, x := range xs {
+							out = append(out, strings.TrimPrefix(filepath.ToSlash(x), j.Target+"/"))
+						}
+						sort.Strings(out)
+						return out
+					}
+					extra, missing = strip(extra), strip(missing)
+					for _, d := range differing {
+						if sameStrings(missing, d.miss) && sameStrings(extra, d.extra) {
+							match = true
+						}
+					}
+				}
+				if !match {
+					det["got_missing"], det["got_extra"] = missing, extra
+					c.Violation(cs, "report.lists-match-no-differing-root", "massive", det)
+				}
+			}
+		}
+		cs.Doc, cs.DocText = nil, ""
 	}
 	cs.Entry, cs.Opt, cs.Tags = "", nil, nil
 	if d := mon.Diff(before, j.Snap()); len(d) != 0 {
